@@ -692,6 +692,10 @@ func goCode(root string, unit string) string {
 		header("Model.GoSem", "Model.Ansi")
 		text, errs := translateFuncs(parseFile(root, "ansi/ansi.go"), []string{"Height", "Squash", "CenterVertically", "ReplaceLastLine", "SetLength"}, "GenAnsi", false)
 		emit("ansi/ansi.go (vertical layout)", text, errs)
+	case "ansih":
+		header("Model.GoSem", "Model.GoText")
+		text, errs := translateAnsiH(parseFile(root, "ansi/ansi.go"), []string{"collapse", "Apply", "Indent", "Pad", "DumbWrap", "Wrap", "lineIsOnlyWhitespace", "Snip"}, "GenAnsiH")
+		emit("ansi/ansi.go (horizontal layout)", text, errs)
 	case "style":
 		header("Model.GoSem", "Model.Ansi", "Model.Style")
 		text, errs := translateFuncs(parseFile(root, "style/style.go"), []string{"background", "foreground", "Bold", "Strikethrough", "Underline", "Italic", "Code", "Highlight", "Color", "Red", "Link", "CodeBlock", "QuoteBlock", "LinkBlock", "Header", "Bullet"}, "GenStyle", true)
